@@ -11,6 +11,7 @@ From stdpp Require Import gmap.
 From Crdt Require Import model.VClock model.Simple model.Orswot model.MVReg model.List model.Merkle
   spec.System spec.Specs spec.OrswotSystem spec.MVRegSystem spec.ListSystem
   proofs.Simple proofs.OrswotSystem proofs.MVReg proofs.ListSystem proofs.GListSystem proofs.MerkleSystem proofs.CrossType.
+From Crdt Require Import model.Map proofs.MapFacts proofs.MapRefuted.
 Local Open Scope N_scope.
 
 Theorem C01_orswot H s1 s2 K : ohist_ok H →
@@ -71,3 +72,25 @@ Theorem C01_lwwreg init (H : list (oprec lww)) s1 s2 K : lww_unique init H →
   creach init lww_merge lww_merge H s1 K → creach init lww_merge lww_merge H s2 K → s1 = s2.
 Proof. exact (c01_lww init H s1 s2 K). Qed.
 Print Assumptions C01_lwwreg.
+
+(** Map is REFUTED (known finding T1): the same four API-generated ops delivered in two different CAUSAL orders (and via a merge) give different reads under key 0 *)
+Theorem C01_map_refuted_witness :
+  let s0 := mnew in
+         let opA := upd_mv s0 3 1 7 in
+         let r2 := mv_apply s0 opA in
+         let opB := upd_mv r2 2 0 1 in
+         let r2' := mv_apply r2 opB in
+         let opC := upd_mv s0 1 0 5 in
+         let opD := rm_key mvop r2' 0 in
+         let deliver := foldl mv_apply s0 in
+         let x := deliver [opA; opB; opC; opD] in
+         let y := deliver [opA; opB; opD; opC] in
+         let z := mv_merge (deliver [opA; opB; opD]) (deliver [opC]) in
+         opA = MUp {| dactor := 3; dcounter := 1 |} 1 (MVPut {[3 := 1]} 7)
+         ∧ opB = MUp {| dactor := 2; dcounter := 1 |} 0 (MVPut {[3 := 1; 2 := 1]} 1)
+           ∧ opC = MUp {| dactor := 1; dcounter := 1 |} 0 (MVPut {[1 := 1]} 5)
+             ∧ opD = MRm {[2 := 1]} {[0]}
+               ∧ read_mv x 0 = Some [1; 5]
+                 ∧ read_mv y 0 = Some [5] ∧ read_mv z 0 = Some [5] ∧ x ≠ y ∧ x ≠ z.
+Proof. exact map_T1_order_refuted. Qed.
+Print Assumptions C01_map_refuted_witness.
